@@ -11,17 +11,23 @@ LEAN_TARGETS = ["Asynkit.Props.C09", "Asynkit.Lemmas.GenEqC09", "Asynkit.Lemmas.
 PROPS_FILES = ["Asynkit/Props/C09.lean", "Asynkit/Lemmas/GenEqC09.lean", "Asynkit/Lemmas/GenEqC15.lean"]
 DRIVERS = ["Kernel"]
 TRUSTED = [
-    "Lean 4.33 kernel; axioms ⊆ {propext, Classical.choice, Quot.sound} (audited per theorem each run)",
-    "hand-written model Asynkit/Model/Kernel.lean (asyncio Future/Task.__step/__wakeup/cancel, call_soon, "
-    "the ready queue as a list, asynkit task_from_handle/queue_find/_task_reinsert/task_is_blocked/"
-    "runnable_tasks/blocked_tasks/task_throw), tied to the running interpreter and to src/asynkit by the "
-    "trace acceptance of this run (every recorded event replayed by lean/Drivers/Kernel.lean, the full "
-    "observable state compared after every event)",
-    "CPython asyncio behaviour is modelled, not verified (3.12.1): Future callbacks scheduling, "
-    "Task.__step/__wakeup/cancel, _run_once popping the head of _ready, current_task/all_tasks",
-    "the harness's classification of ready handles (function identity of Task.__step/__wakeup, probed "
-    "C wrapper types) as ground truth for 'is in the ready queue'",
-    "priority loop observed with equal priorities only (ordering among different priorities is C10)",
+    'Lean 4.33 kernel; axioms ⊆ {propext, Classical.choice, Quot.sound} (audited per theorem each run)',
+    'translated, not trusted: task_is_blocked, task_is_runnable, task_from_handle / is_task_callback '
+    '(translator/py2lean.py, sched2lean.py -> Gen/Sched.lean, Gen/SchedOps.lean; Lemmas/GenEqC09.lean, 3 '
+    'theorems) and task_throw, _task_reinsert, the synchronous prefix of task_interrupt '
+    '(translator/interrupt2lean.py -> Gen/Interrupt.lean; Lemmas/GenEqC15.lean, 8 theorems) are re-translated '
+    "from the source on every run and proved equal to the Kernel model's predicates and events, over the "
+    'primitives of Model/KernelPrims.lean',
+    'hand-written and tied only by the trace acceptance of this run (every recorded event replayed by '
+    'lean/Drivers/Kernel.lean, full observable state compared): the asyncio part of Asynkit/Model/Kernel.lean '
+    '(Future, Task.__step/__wakeup/cancel, call_soon, the ready queue as a list), '
+    'runnable_tasks()/blocked_tasks() as folds of the translated predicates, the C-task path of task_throw (not '
+    'modelled)',
+    'CPython asyncio behaviour is modelled, not verified (3.12.1): Future callbacks scheduling, '
+    'Task.__step/__wakeup/cancel, _run_once popping the head of _ready, current_task/all_tasks',
+    "the harness's classification of ready handles (function identity of Task.__step/__wakeup, probed C wrapper "
+    "types) as ground truth for 'is in the ready queue'",
+    'priority loop observed with equal priorities only (ordering among different priorities is C10)',
 ]
 ASSUMPTIONS = [
     "tasks await plain futures (a Task awaited by another Task is a Future to __step; only cancel "
